@@ -267,9 +267,9 @@ def signature_of(ops, r):
     return None
 
 
-def finish(chk):
+def finish(chk, level="proof"):
     try:
-        return chk.finish()
+        return chk.finish(level)
     except KeyError:
         # pv.Check.finish moves obligations/discharged aside when the proof did not check and then
         # formats its log line from them; the evidence file is already written at that point
@@ -277,6 +277,31 @@ def finish(chk):
 
 
 # ---------------------------------------------------------------------------------------------
+
+def replay(chk, path):
+    """check.py C11 --replay file: one op file through the three comparisons"""
+    ops = [l.rstrip("\n") for l in open(path) if l.strip() and not l.startswith("#")]
+    alg = next((o.split()[1] for o in ops if o.startswith("new ") and len(o.split()) == 2), None)
+    fam = next((f for f in FAMILIES if any(a[0] == alg for a in f[2])), None)
+    if fam is None:
+        pv.log("replay: no family knows algorithm %r" % alg)
+        return 2
+    exe = pv.build_harness("hash", pv.repo_config(), ["hash.c"], san="asan")
+    hf = HashFamily(fam[0], exe, timeout=900, model_timeout=1800)
+    chk.count("\n".join(ops))
+    r = oracle_judge(hf, ops)
+    if r is not None:
+        chk.violation("\n".join(ops) + "\n", "C11 %s hashlib oracle: %s" % (fam[0], r["detail"]))
+    ok, _ = pv.lake_build(["pvdriver"])
+    if ok:
+        r = diffrun.judge(hf, ops)
+        if r is not None and r["kind"] in ("spec", "crash"):
+            chk.violation("\n".join(ops) + "\n", "C11 %s %s: %s" % (fam[0], r["kind"], r["detail"]))
+        elif r is not None:
+            chk.violation("\n".join(ops) + "\n", "C11 %s %s: %s" % (fam[0], r["kind"], r["detail"]), no_input=True)
+    chk.cov["rule"] = "replay of one op file"
+    return finish(chk, level="test")
+
 
 def run(chk):
     cfg = pv.repo_config()
